@@ -327,3 +327,15 @@ def run_one(ctx: Any, seed: int, tier: str, replay: Optional[dict] = None) -> di
         "sim_time": sim_time,
         "samples": samples,
     }
+
+
+def shrink_candidates(rp: dict):
+    import copy
+
+    from vsim.shrink import list_candidates
+
+    for h in list_candidates(rp["history"]):
+        if h:
+            r = copy.deepcopy(rp)
+            r["history"] = h
+            yield "drop history ops", r
